@@ -133,10 +133,10 @@ theorem C07_traced_same_formula (d : Int) (root : Option (Snap V)) (path : List 
 
 /-- and for what follows a vector index (`P[keys].name`, `P[keys][keys']`): the wrapper around a
     vectorial node returns what the bare vectorial node returns and appends at most one entry -/
-theorem C07_traced_same_vector (d : Int) (name : String) (rows : List (VRow W)) (steps : List VStep)
+theorem C07_traced_same_vector (cls : Bool) (d : Int) (name : String) (rows : List (VRow W)) (steps : List VStep)
     (log : List (LogEntry (List (VRow W)))) :
-    (tracedVec d name rows steps log).1 = vsteps rows steps ∧
-    ∃ extra, (tracedVec d name rows steps log).2 = log ++ extra ∧ extra.length ≤ 1 := by
+    (tracedVec cls d name rows steps log).1 = vsteps cls rows steps ∧
+    ∃ extra, (tracedVec cls d name rows steps log).2 = log ++ extra ∧ extra.length ≤ 1 := by
   induction steps generalizing rows with
   | nil =>
     unfold tracedVec
@@ -149,7 +149,7 @@ theorem C07_traced_same_vector (d : Int) (name : String) (rows : List (VRow W)) 
     · rw [if_pos hl]; exact ⟨rfl, [_], rfl, by simp⟩
     · rw [if_neg hl]
       simp only [vsteps]
-      cases hv : vstep rows st with
+      cases hv : vstep cls rows st with
       | ok rows' => exact ih rows'
       | error e => exact ⟨rfl, [], by simp, by simp⟩
 
@@ -239,6 +239,54 @@ example : shownRows (asof (W := Nat) some (Snap.node [("after_1990_01_01", .val 
       [722814, 722815, 726467, 726468, 737550])
     = some [[1], [2], [2], [3], [3]] := by decide +kernel
 example : AsofWF ["after_1990_01_01", "before_1980_01_01", "after_1980_01_01"] := by decide +kernel
+
+/-- Chained as-of-date indexing, `P[dates₁][dates₂]` on nested `before…/after_…` groups (the F-C07d repair:
+    `values[conditions, rows]`). `rows` is what the first index returned (two rows or more; one row is
+    `C07_asof_pointwise`), `ds` the second date vector, of the same length: the result has one element per
+    date, and element `i` is read in ROW `i`, at date `ds[i]` (`asofOne`: the field number `#{after_ dates ≤
+    ds[i]}` of that row) — not in the first row. -/
+theorem C07_asof_chained_pointwise (r0 r1 : VRow W) (rest : List (VRow W)) (ds : List Int)
+    (hleaf : leafRows (r0 :: r1 :: rest) = false) (hlen : (r0 :: r1 :: rest).length = ds.length)
+    (out : List (VRow W)) (h : vstep true (r0 :: r1 :: rest) (.dates ds) = .ok out) :
+    out.length = ds.length ∧
+    ∀ i (hi : i < ds.length) (hi' : i < (r0 :: r1 :: rest).length),
+      ∃ x, out[i]? = some x ∧ asofOne (r0 :: r1 :: rest)[i] ds[i] = .ok x := by
+  simp only [vstep, hleaf, Bool.false_eq_true, if_false, if_true, asofRows, broadcast, hlen] at h
+  obtain ⟨h1, h2⟩ := asofPairs_spec _ out h
+  have hzl : ((r0 :: r1 :: rest).zip ds).length = ds.length := by
+    rw [List.length_zip, hlen]; exact Nat.min_self _
+  refine ⟨by rw [h1, hzl], fun i hi hi' => ?_⟩
+  obtain ⟨x, hx1, hx2⟩ := h2 i (by rw [hzl]; exact hi)
+  refine ⟨x, hx1, ?_⟩
+  simpa [List.getElem_zip] using hx2
+
+/-- … and what is read in a row is the child in force: when row `i` is the record of a group `cs'` in the
+    claim domain (`AsofWF` names, homogeneous), `asofOne` at `t` gives the vectorised value of the child of
+    `cs'` in force at `t`. Together with `C07_asof_pointwise` for the first index: element `i` of
+    `P[dates₁][dates₂]` is the grand-child in force at `dates₂[i]` of the child in force at `dates₁[i]`. -/
+theorem C07_asof_chained_in_force (num : V → Option W) (cs' : List (String × Snap V)) (t : Int)
+    (hwf : AsofWF (cs'.map (·.1))) (hh : homog num (cs'.map (·.2)) = .ok ())
+    (row x : VRow W) (hrow : vectorise asofLt num (.node cs') = .ok row) (hx : asofOne row t = .ok x) :
+    ∃ k c, (k, c) ∈ cs' ∧ vectorise asofLt num c = .ok x ∧ InForce (cs'.map (·.1)) t k := by
+  obtain ⟨out, ho, _, hspec⟩ := asof_spec num cs' [t] hwf hh
+  obtain ⟨k, c, x', hmem, hvx, hox, hin⟩ := hspec 0 (by simp)
+  simp only [asof, buildVec, hh, hrow] at ho
+  obtain ⟨y, hy, hone⟩ := asofIndex_single row t out ho
+  rw [hx] at hone
+  cases hone
+  rw [hy] at hox
+  simp only [List.getElem?_cons_zero, Option.some.injEq] at hox
+  subst hox
+  exact ⟨k, c, hmem, hvx, by simpa using hin⟩
+
+/-- born before / after 1980, date of the claim before / after 2000: row by row (before the repair the
+    code answered `[1, 1, 2]`: the first row for every element) -/
+example :
+    let node : Snap Nat := .node [("before_1980_01_01", .node [("before_2000_01_01", .val 1), ("after_2000_01_01", .val 2)]),
+                                  ("after_1980_01_01", .node [("before_2000_01_01", .val 3), ("after_2000_01_01", .val 4)])]
+    shownRows ((asof (W := Nat) some node [719163, 726468, 726468]).bind (vstep true · (.dates [729755, 729755, 731947])))
+      = some [[1], [3], [4]] := by
+  decide +kernel
 
 /-! ## Reads made WHILE a modification is under way -/
 
@@ -452,6 +500,37 @@ theorem C07_base_view (w : World V) (hw : MemoOK w) (s form : Nat) (d : Int) (pa
 
 example : rootOf [⟨some 0, none⟩, ⟨some 0, some 0⟩, ⟨some 1, some 1⟩] 3 2 = 0 := by decide
 
+/-! ## `TaxBenefitSystem.clone()` -/
+
+/-- `system.clone()` makes a new system whose tree is a copy (`parameters.clone()`, a new object) and for which
+    nothing is memoised (the memo is keyed by the system object): the state stays sound, the clone reads through
+    every route the tree the original had when it was cloned, and every existing system keeps its tree. What is
+    done to the clone afterwards never targets the original (`C07_reform_isolated` applies: `cloneSys` spares
+    everybody). -/
+theorem C07_clone_system (w : World V) (hw : MemoOK w) (s : Nat) (r : SysRec) (t : PNode V)
+    (hr : w.systems[s]? = some r) (ht : w.treeOf s = some t) :
+    (step w (.cloneSys s)).2 = .created w.systems.length ∧
+    MemoOK (step w (.cloneSys s)).1 ∧
+    (step w (.cloneSys s)).1.treeOf w.systems.length = some t ∧
+    AllRoutesRead (step w (.cloneSys s)).1 w.systems.length t ∧
+    (∀ s', s' < w.systems.length → (step w (.cloneSys s)).1.treeOf s' = w.treeOf s') := by
+  have hok := step_memoOK w hw (.cloneSys s)
+  have hstep : step w (.cloneSys s) =
+      ({ w with heap := w.heap ++ [t], systems := w.systems ++ [⟨some w.heap.length, r.baseline⟩] },
+        .created w.systems.length) := by
+    simp only [step, hr, ht]
+  rw [hstep] at hok ⊢
+  have hnew := treeOf_append_new w t r.baseline
+  refine ⟨rfl, hok, hnew, ?_, fun s' hs' => treeOf_append_both w hw.1 t _ hs'⟩
+  exact allRoutesRead_of _ hok _ (by simp) t hnew
+
+/-- clone the baseline after its view was read, reload the ORIGINAL: the clone still reads 7, the original 70 -/
+example :
+    let w0 : World Nat := ⟨[.node [("x", .param [⟨10, some 7⟩])]], [⟨some 0, none⟩], []⟩
+    let ops : List (Op Nat) := [.readView 0 0 12 [], .cloneSys 0, .reload 0 [("x", .param [⟨10, some 70⟩])] noHook]
+    (step (run w0 ops) (.readView 1 0 12 ["x"])).2 = .value (.ok (some (.val 7))) [] ∧
+    (step (run w0 ops) (.readView 0 0 12 ["x"])).2 = .value (.ok (some (.val 70))) [] := ⟨rfl, rfl⟩
+
 /-! ## A reform's modifications leave every other system alone -/
 
 /-- Whatever is done through reforms — creating them, running any modifier functions on them,
@@ -538,6 +617,8 @@ end OFCore
 #print axioms OFCore.C07_fancy_subnode
 #print axioms OFCore.C07_keys_stringified
 #print axioms OFCore.C07_asof_pointwise
+#print axioms OFCore.C07_asof_chained_pointwise
+#print axioms OFCore.C07_asof_chained_in_force
 #print axioms OFCore.C07_modify_nested_reads
 #print axioms OFCore.C07_reload_nested_reads
 #print axioms OFCore.C07_nested_read_sees_former_tree
@@ -545,5 +626,6 @@ end OFCore
 #print axioms OFCore.C07_extend_reads_current
 #print axioms OFCore.C07_base_view
 #print axioms OFCore.C07_extend_spares_others
+#print axioms OFCore.C07_clone_system
 #print axioms OFCore.C07_reform_isolated_static
 #print axioms OFCore.C07_reform_isolated
